@@ -545,3 +545,104 @@ pub fn pick_idx(raw: u16, len: usize) -> usize {
 pub fn boxed<S: Strategy + 'static>(s: S) -> BoxedStrategy<S::Value> {
     s.boxed()
 }
+
+/// Coverage-guided campaign (thorough tier): builds the libFuzzer target and runs `jobs` independent processes,
+/// each on its own copy of the seed corpus with its own seed. A crash artifact becomes a violation whose replay file is the artifact.
+pub fn fuzz_stage(ctx: &Ctx, out: &mut Outcome, target: &str, runs_per_job: u64, jobs: usize, max_len: usize) {
+    if out.failed() {
+        return;
+    }
+    let t0 = Instant::now();
+    let fuzz_dir = ctx.verif.join("fuzz");
+    let target_dir = ctx.verif.join("target/fuzz");
+    let build = std::process::Command::new("cargo")
+        .args(["+nightly", "fuzz", "build", "--fuzz-dir"])
+        .arg(&fuzz_dir)
+        .arg("--target-dir")
+        .arg(&target_dir)
+        .args(["-s", "none", target])
+        .env("CARGO_NET_OFFLINE", "true")
+        .output();
+    match build {
+        Ok(o) if o.status.success() => {}
+        Ok(o) => {
+            out.inconclusive.push(format!("fuzz build of {} failed: {}", target, String::from_utf8_lossy(&o.stderr).lines().filter(|l| l.starts_with("error")).take(3).collect::<Vec<_>>().join(" | ")));
+            return;
+        }
+        Err(e) => {
+            out.inconclusive.push(format!("cannot run cargo fuzz: {}", e));
+            return;
+        }
+    }
+    let bin = target_dir.join("x86_64-unknown-linux-gnu/release").join(target);
+    if !bin.exists() {
+        out.inconclusive.push(format!("fuzz binary {} not found after build", bin.display()));
+        return;
+    }
+    let results: Vec<(i32, Option<PathBuf>, String)> = std::thread::scope(|s| {
+        let hs: Vec<_> = (0..jobs)
+            .map(|j| {
+                let bin = &bin;
+                s.spawn(move || {
+                    let corpus = ctx.scratch.join(format!("fuzz-{}-corpus-{}", target, j));
+                    let arts = ctx.scratch.join(format!("fuzz-{}-art-{}", target, j));
+                    let _ = std::fs::create_dir_all(&corpus);
+                    let _ = std::fs::create_dir_all(&arts);
+                    if let Ok(rd) = std::fs::read_dir(ctx.verif.join("corpus").join(target)) {
+                        for e in rd.flatten() {
+                            let _ = std::fs::copy(e.path(), corpus.join(e.file_name()));
+                        }
+                    }
+                    let o = std::process::Command::new(bin)
+                        .arg(&corpus)
+                        .arg(format!("-runs={}", runs_per_job))
+                        .arg(format!("-seed={}", (ctx.seed.wrapping_mul(1000003).wrapping_add(j as u64 + 1)) & 0x7fff_ffff))
+                        .arg(format!("-max_len={}", max_len))
+                        .arg("-len_control=0")
+                        .arg("-timeout=60")
+                        .arg(format!("-artifact_prefix={}/", arts.display()))
+                        .stdin(std::process::Stdio::null())
+                        .output();
+                    match o {
+                        Ok(o) => {
+                            let code = o.status.code().unwrap_or(-1);
+                            let art = std::fs::read_dir(&arts).ok().and_then(|rd| rd.flatten().map(|e| e.path()).next());
+                            let log = String::from_utf8_lossy(&o.stderr).into_owned();
+                            (code, art, log)
+                        }
+                        Err(e) => (-2, None, e.to_string()),
+                    }
+                })
+            })
+            .collect();
+        hs.into_iter().map(|h| h.join().unwrap()).collect()
+    });
+    let mut total = 0u64;
+    for (code, art, log) in results {
+        if code == 0 {
+            total += runs_per_job;
+            continue;
+        }
+        if code == -2 {
+            out.inconclusive.push(format!("cannot start fuzz binary: {}", log));
+            continue;
+        }
+        let msg = log.lines().find(|l| l.contains("FUZZ-VIOLATION") || l.contains("panicked at")).unwrap_or("fuzz target crashed").to_string();
+        let kind = if log.contains("timeout after") || log.contains("ALARM") { "timeout" } else { "crash" };
+        match art {
+            Some(a) if kind == "crash" => {
+                let d = ctx.verif.join("failures").join(&ctx.id);
+                let _ = std::fs::create_dir_all(&d);
+                let dest = d.join(format!("fuzz-{}-{}", target, a.file_name().map(|f| f.to_string_lossy().into_owned()).unwrap_or_default()));
+                let _ = std::fs::copy(&a, &dest);
+                if out.violations.is_empty() {
+                    out.violations.push((Failure::new(format!("fuzz:{}", target), msg), dest));
+                }
+            }
+            _ => out.inconclusive.push(format!("fuzz job of {} ended with status {} ({}): {}", target, code, kind, msg)),
+        }
+    }
+    out.stats.evaluations += total;
+    out.stats.class_n(&format!("libFuzzer executions ({})", target), total);
+    out.stages.push(json!({"stage": format!("libfuzzer:{}", target), "cases": total, "jobs": jobs, "wall_s": t0.elapsed().as_secs_f64()}));
+}
